@@ -2,6 +2,8 @@
 
 from __future__ import annotations
 
+import math
+
 import numpy as np
 from hypothesis import strategies as st
 
@@ -60,7 +62,13 @@ def single_case(draw, mode):
 def borderline_case(draw, mode):
     """Constructions the library normally refuses (shape-changing strict diagonal, non-square observation matrix).
     If a (modified) library accepts them, the resulting instance must still not carry a false tag."""
-    what = draw(st.sampled_from(['diag_unit_axis', 'diag_unit_axis', 'toast_nonsquare', 'diag_trailing_unit']))
+    what = draw(st.sampled_from(['diag_unit_axis', 'diag_unit_axis', 'toast_nonsquare', 'diag_trailing_unit', 'scalar_with_axes']))
+    if what == 'scalar_with_axes':
+        # a one-element array WITH axes as the factor of k * A, A * k, A / k (a keepdims=True normalisation): normally
+        # refused; if accepted, the resulting scalar operator carries the diagonal/symmetric/square claims
+        return {'special': what, 'S': St.leaf([draw(st.integers(1, 3))] if draw(st.booleans()) else [], 'float32'),
+                'kshape': draw(st.sampled_from([[1], [1, 1], [1, 1, 1]])), 'form': draw(st.sampled_from(['k*A', 'A*k', 'A/k'])),
+                'probe': [1] * 8}
     if what == 'diag_trailing_unit':
         k = draw(st.integers(2, 4))
         form = draw(st.sampled_from(['k1_axis0', '1_axis1']))
@@ -83,8 +91,22 @@ def borderline_case(draw, mode):
     return {'special': what, 'matrix': np.asarray(vals, dtype=float).reshape(r, c).tolist(), 'probe': [1] * 8}
 
 
+@st.composite
+def toeplitz_blocks_case(draw, mode):
+    """Symmetric band Toeplitz operators evaluated block by block (overlap-save with several FFT blocks, lengths that are
+    exact multiples of the block step or leave an almost full last block): the symmetric claim is about what is applied."""
+    K = draw(st.integers(2, 3))
+    fft = draw(st.sampled_from([None, 2 * K - 1, 2 * K, 2 * K + 1, 2 * K + 2]))
+    step = (fft or int(2 ** (1 + math.ceil(math.log2(K))))) - 2 * (K - 1)
+    n = min(16, step * draw(st.integers(2, 8)) + draw(st.sampled_from([0, 0, 0, step - 1, 1])))
+    S = St.leaf([n], draw(st.sampled_from(gen.dtypes(mode))))
+    band = [draw(st.sampled_from([2.0, 1.0, -1.0, 0.5, 3.0])) for _ in range(K)]
+    return {'defs': [], 'expr': {'k': 'toeplitz', 'in': S, 'band': band, 'method': draw(st.sampled_from([None, 'overlap_save'])),
+                                 'fft_size': fft, 'vdtype': S['dtype']}, 'probe': draw(st.lists(st.integers(0, 1000), min_size=8, max_size=8))}
+
+
 def strategy(tier, mode):
-    return st.one_of(borderline_case(mode), single_case(mode), single_case(mode), single_case(mode),
+    return st.one_of(borderline_case(mode), single_case(mode), single_case(mode), single_case(mode), toeplitz_blocks_case(mode),
                      gen.expression_case(mode, cap=16, max_len=3, depth=2),
                      gen.expression_case(mode, cap=16, max_len=3, depth=2, allow_cg=True))
 
@@ -133,6 +155,15 @@ def _check_borderline(case):
 
             op = DiagonalOperator(jnp.asarray(case['vals'], jnp.float32), axis_destination=case['axis'],
                                   in_structure=St.to_jax(case['S']))
+        elif what == 'scalar_with_axes':
+            from furax._base.core import CompositionOperator, HomothetyOperator, IdentityOperator
+
+            base = IdentityOperator(St.to_jax(case['S']))
+            k = jnp.full(tuple(case['kshape']), 2.0, jnp.float32)
+            op = k * base if case['form'] == 'k*A' else (base * k if case['form'] == 'A*k' else base / k)
+            if isinstance(op, CompositionOperator):
+                homs = [o for o in op.operands if isinstance(o, HomothetyOperator)]
+                op = homs[0] if homs else op
         else:
             op = ops.build_toast({'in': {'dtype': 'float32'}, 'matrix': case['matrix']})
     except Exception as e:  # noqa: BLE001  (refusing such a construction is the normal behaviour)
@@ -214,6 +245,21 @@ def check(case, mode):
                 raise Violation(f'{t}:{name}', f'{name} is tagged PSD but has eigenvalue {w.min():.3g}')
             if t == 'is_negative_semidefinite' and w.max(initial=0.0) > slack:
                 raise Violation(f'{t}:{name}', f'{name} is tagged NSD but has eigenvalue {w.max():.3g}')
+    # the same judgement on what the operator itself computes (basis applications), not only on the reference matrix:
+    # a tag is a claim about the operator
+    applied = []
+    if true_tags and square_m and M.shape[1] <= 16 and 'cg' not in den.flags:
+        Mop = must_not_raise('apply-basis', ops.dense_by_basis, op, den.in_S, M.shape[0])
+        Eo = 2 * (E + E.T)
+        if Mop.shape == M.shape:
+            for t in true_tags:
+                bad = (t == 'is_symmetric' and (np.abs(Mop - Mop.T) > Eo).any()) or \
+                      (t == 'is_diagonal' and (np.abs(Mop - np.diag(np.diag(Mop))) > Eo).any()) or \
+                      (t == 'is_lower_triangular' and (np.abs(np.triu(Mop, 1)) > Eo).any()) or \
+                      (t == 'is_upper_triangular' and (np.abs(np.tril(Mop, -1)) > Eo).any())
+                if bad:
+                    raise Violation(f'{t}:{name}:applied', f'{name} answers {t} but the matrix of its basis applications does not have that property')
+            applied = ['tags_judged_on_applied_matrix']
     decorators = []
     if cls.out_structure is cls.in_structure:
         decorators.append('square')
@@ -238,4 +284,4 @@ def check(case, mode):
     _classes_in(op, seen)
     classes = ['class:' + n for n in seen] + ['tag:' + t for t in true_tags] + ['decorator:' + d for d in decorators]
     multiple_of_identity = square_m and np.array_equal(M, M[0, 0] * np.eye(M.shape[0])) if M.size else True
-    return {'nontrivial': (not multiple_of_identity) and bool(true_tags or decorators), 'classes': classes}
+    return {'nontrivial': (not multiple_of_identity) and bool(true_tags or decorators), 'classes': classes + applied}
